@@ -771,12 +771,15 @@ public:
         }
       }
       if (c17) g.opt.W = 0;
-    } else if (c18 || (c15 && g.rng.chance(50))) {
-      // one guard-juggling thread + an unlinking/retiring partner (+ optionally a second juggler)
+    } else if (c18 || (c15 && g.rng.chance(50)) || (plain && g.rng.chance(10))) {
+      // one guard-juggling thread + an unlinking/retiring partner (+ optionally a second juggler); a tenth of the plain
+      // (C01 / C03 / C16) programs have this shape too, with the guard-algebra operation mix: a long sequence of guard
+      // copies, moves, constructions and resets on one thread is where per-thread protection state (region counters,
+      // slot sharing) goes wrong, and what it breaks is C01 (seed RAm)
       int nt = g.rng.range(2, 3);
       p.threads.resize(nt);
       int len = g.tier ? g.rng.range(20, 120) : g.rng.range(8, 40);
-      gen_ops(g, p.threads[0], len, nslots, tr, c18, c15, false);
+      gen_ops(g, p.threads[0], len, nslots, tr, c18, c15 || plain, false);
       for (int t = 1; t < nt; t++) {
         int n = len / 2 + 2;
         for (int i = 0; i < n; i++) {
@@ -795,10 +798,60 @@ public:
       }
     } else {
       int nt = g.rng.range(2, (g.tier || g.rng.chance(20)) ? 4 : 3);
-      p.threads.resize(nt);
       bool rh = plain && !tr.hp_like && g.rng.chance(30);
-      for (int t = 0; t < nt; t++)
-        gen_ops(g, p.threads[t], rh ? g.rng.range(6, maxops + 6) : g.rng.range(3, maxops), nslots, tr, false, c15, c02 && g.rng.chance(50), rh);
+      // holder / churn (an eighth of the plain programs of the deferred schemes): one thread acquires a guard (inside a
+      // region_guard or not) and keeps it over a few slow operations while two or three others publish and retire in a
+      // tight cycle - every cycle is a reclamation point, so epochs / stamps / scans move on several times, each of the
+      // churning threads somewhere else in its pass over the thread list, while the holder stays where it is (seed RAa:
+      // a partial scan that carries its position over an epoch change)
+      bool holder = plain && !tr.lfrc && !rh && g.rng.chance(12);
+      // guard-algebra mix in programs checked by the C01 oracles (an eighth of the plain programs): copies, copy / move
+      // construction, construction from a marked_ptr, self assignment and re-marking of cells (marked null values) are
+      // guard operations of C01's "or a copy of such a guard" as well (seed RAm)
+      bool algebra_mix = plain && !holder && g.rng.chance(12);
+      if (holder) {
+        nt = g.rng.range(3, 4);
+        p.threads.resize(nt);
+        auto& h = p.threads[0].ops;
+        bool region = g.rng.chance(60);
+        if (region) h.push_back(Op{OP_REGION_ENTER, 0, 0, 0});
+        h.push_back(Op{OP_READ, (int64_t)g.rng.below(2), 0, (int64_t)g.rng.below(2)});
+        int mid = g.rng.range(1, 4);
+        for (int i = 0; i < mid; i++) {
+          int r = (int)g.rng.below(100);
+          int s = 1 + (int)g.rng.below(nslots > 1 ? nslots - 1 : 1);
+          if (s >= nslots) s = 0;
+          if (r < 40) h.push_back(Op{OP_READ, (int64_t)g.rng.below(2), s, (int64_t)g.rng.below(2)});
+          else if (r < 60 && s != 0) h.push_back(Op{OP_COPY, 0, s, 0});
+          else if (r < 75) h.push_back(Op{OP_READ_IF, (int64_t)g.rng.below(2), s, (int64_t)g.rng.below(3)});
+          else h.push_back(Op{OP_RESET, s, 0, 0});
+        }
+        h.push_back(Op{OP_RESET, 0, 0, 0});
+        if (region) h.push_back(Op{OP_REGION_LEAVE, 0, 0, 0});
+        for (int t = 1; t < nt; t++) {
+          int n = g.rng.range(8, g.tier ? 28 : 20);
+          for (int i = 0; i < n; i++) {
+            int cell = (int)g.rng.below(2);
+            int r = (int)g.rng.below(100);
+            if (r < 42) p.threads[t].ops.push_back(Op{OP_PUBLISH, cell, 0, 0});
+            else if (r < 88) p.threads[t].ops.push_back(Op{OP_UNLINK, cell, 0, 0});
+            else if (r < 94) p.threads[t].ops.push_back(Op{OP_READ, cell, 0, 0});
+            else p.threads[t].ops.push_back(Op{OP_RESET, 0, 0, 0});
+          }
+        }
+      } else {
+        p.threads.resize(nt);
+        for (int t = 0; t < nt; t++)
+          gen_ops(g, p.threads[t], rh ? g.rng.range(6, maxops + 6) : g.rng.range(3, maxops), nslots, tr, false, c15 || algebra_mix, c02 && g.rng.chance(50), rh);
+        if (algebra_mix && g.rng.chance(50)) {
+          // start from a state with marked null cells (what the next pointer of the last node of a Harris-Michael list
+          // looks like while that node is being removed): re-marking an empty cell stores marked_ptr(nullptr, 1)
+          auto& ops = p.threads[g.rng.below(nt)].ops;
+          int c = (int)g.rng.below(2);
+          ops.insert(ops.begin(), Op{OP_REMARK, c, 0, 0});
+          if (g.rng.chance(50)) ops.insert(ops.begin() + 1, Op{OP_REMARK, 1 - c, 0, 0});
+        }
+      }
     }
     // C15: in a quarter of the runs one thread also runs the marked_ptr / concurrent_ptr round trips for one mark width
     if (c15 && !p.threads.empty() && g.rng.chance(25)) {
